@@ -18,6 +18,7 @@ func runC13(c *Ctx) {
 	c13Consume(c)
 	c13SameAddress(c)
 	c13AliasTable(c)
+	c03URIDefaults(c)
 	c13KeepFlag(c)
 	checkPopOne(c, "pop-structure", routePop)
 }
